@@ -36,6 +36,9 @@ type C13Case struct {
 	XProc   bool  `json:"xproc,omitempty"`  // writers are separate processes
 }
 
+// sessionsWedged: a session round deadlocked; goroutines of it are still stuck, later rounds are not run.
+var sessionsWedged bool
+
 var c13Layout = Layout{Archives: []Arch{{Step: 1, Points: 1200}}, Method: 2, XFF: 0} // 14.4 KB: 4 pages
 
 const c13Now = 1600000000
@@ -197,6 +200,25 @@ func runLifetime(c C13Case, ev *Evid) (fs []Finding) {
 		add("not-locked", "a non-blocking exclusive flock succeeds while a default-option handle is open (err %v): the file is not exclusively locked", perr)
 		return
 	}
+	if c.Mode == "healthy-open-spawn" {
+		// a process started while the handle is open (and still running) must not keep the lock alive
+		child := exec.Command(os.Args[0], "-test.run", "^TestChildNoop$")
+		child.Env = append(os.Environ(), "VERIF_CHILD=sleep", "VERIF_SLEEP_MS=4000")
+		if err := child.Start(); err != nil {
+			db.Close()
+			add("setup", "cannot start a child process: %v", err)
+			return
+		}
+		defer func() { child.Process.Kill(); child.Wait() }()
+		time.Sleep(20 * time.Millisecond)
+		db.Close()
+		if free, perr := probeLock(path); perr != nil || !free {
+			add("lock-leak", "the handle was closed but the file is still locked: a child process started while the handle was open inherited the locked descriptor (probe err %v)", perr)
+			return
+		}
+		ev.Count(HashJSON(c), true, "mode="+c.Mode)
+		return
+	}
 	// a second default Open must block until Close
 	returned := int32(0)
 	done := make(chan struct{})
@@ -212,15 +234,6 @@ func runLifetime(c C13Case, ev *Evid) (fs []Finding) {
 	if c.Cut >= 1000 {
 		hold = time.Duration(c.Cut) * time.Millisecond // a holder that keeps the file for longer than any back-off budget
 	}
-	var child *exec.Cmd
-	if c.Mode == "healthy-open-spawn" {
-		// a process started while the handle is open must not keep the lock alive after Close
-		child = exec.Command(os.Args[0], "-test.run", "^TestChildNoop$")
-		child.Env = append(os.Environ(), "VERIF_CHILD=sleep", "VERIF_SLEEP_MS=1500")
-		if err := child.Start(); err != nil {
-			child = nil
-		}
-	}
 	time.Sleep(hold)
 	early := atomic.LoadInt32(&returned) == 1
 	db.Close()
@@ -229,9 +242,6 @@ func runLifetime(c C13Case, ev *Evid) (fs []Finding) {
 	case <-time.After(5 * time.Second):
 		add("second-open-stuck", "a second Open did not return within 5 s after the first handle was closed")
 		return
-	}
-	if child != nil {
-		defer func() { child.Process.Kill(); child.Wait() }()
 	}
 	if early {
 		add("second-open-early", "a second Open returned while the first handle was still open (held for %v)", hold)
@@ -316,8 +326,13 @@ func runSessions(c C13Case, ev *Evid) (fs []Finding) {
 	}
 	db.Sync()
 	db.Close()
+	if sessionsWedged {
+		add("sessions-deadlock", "(not run) an earlier session round in this process deadlocked")
+		return
+	}
 	var wg sync.WaitGroup
 	var mu sync.Mutex
+	var children []*exec.Cmd
 	var errs []string
 	type span struct{ open, close time.Time }
 	var spans []span
@@ -335,6 +350,9 @@ func runSessions(c C13Case, ev *Evid) (fs []Finding) {
 			if c.XProc {
 				t0 := time.Now()
 				cm := exec.Command(os.Args[0], "-test.run", "^TestChildNoop$")
+				mu.Lock()
+				children = append(children, cm)
+				mu.Unlock()
 				cm.Env = append(os.Environ(), "VERIF_CHILD=c13", "VERIF_C13_PATH="+path, "VERIF_C13_ROUNDS="+strconv.Itoa(c.Rounds), "VERIF_C13_YIELD="+strconv.Itoa(y))
 				out, err := cm.CombinedOutput()
 				mu.Lock()
@@ -402,9 +420,29 @@ func runSessions(c C13Case, ev *Evid) (fs []Finding) {
 		}()
 	}
 	close(start)
-	wg.Wait()
-	atomic.StoreInt32(&stopReaders, 1)
-	rwg.Wait()
+	finished := make(chan struct{})
+	go func() {
+		wg.Wait()
+		atomic.StoreInt32(&stopReaders, 1)
+		rwg.Wait()
+		close(finished)
+	}()
+	select {
+	case <-finished:
+	case <-time.After(120 * time.Second):
+		// sessions that take milliseconds each did not finish in two minutes: somebody waits for a lock
+		// that is never released
+		mu.Lock()
+		for _, cm := range children {
+			if cm.Process != nil {
+				cm.Process.Kill()
+			}
+		}
+		mu.Unlock()
+		add("sessions-deadlock", "%d writer and %d reader sessions did not finish within 120 s: an Open is waiting for a lock that is never released", c.Writers, c.Readers)
+		sessionsWedged = true
+		return
+	}
 	if len(errs) > 0 {
 		add("session-error", "%s", strings.Join(errs, "; "))
 		return
